@@ -34,6 +34,8 @@ def compile_case(case, root, store_dir, ref_paths_file):
     all_paths = []
     for hi, st in enumerate(case["history"]):
         p = versions[st["v"]]
+        if st.get("entry"):
+            p = dict(p, entry=st["entry"])
         if cur is None or st.get("new_process", False):
             cur = {"steps": [], "idx": []}
             segs.append(cur)
@@ -58,6 +60,8 @@ def compile_case(case, root, store_dir, ref_paths_file):
             step["how"] = "none"
         else:
             q = versions[prev_v]
+            if st.get("entry"):
+                q = dict(q, entry=st["entry"])
             if how == "mutate" and _only_vars_differ(q, p) and _mutate_ok(q, p):
                 step["how"] = "none"
                 step["mutate"] = [(gen.modname(p, p["vars"][vid]["module"]), p["vars"][vid]["name"], p["vars"][vid]["value"])
@@ -208,6 +212,8 @@ def oracle_values(case, obs, rep, pid="C01", classify=None):
             rep.inconclusive.append("setup error: %s" % (im.get("setup_error") or rf.get("setup_error"))[-300:])
             return hi
         a, b = im["result"], rf["result"]
+        if case["history"][hi].get("expect") == "reject":
+            continue
         rep.count("value_comparisons")
         if b[0] == "ok":
             if not _res_equal(a, b):
@@ -257,18 +263,24 @@ def oracle_memo(case, obs, rep, upto=None, classify=None):
     if case["store"] == "noop":
         return
     done = {}  # fp -> sig
+    path_fp = {}  # path -> fingerprint of the node that produced what the path currently serves
     for hi, o in enumerate(obs["steps"]):
         if o is None or (upto is not None and hi >= upto):
             break
         st = case["history"][hi]
         if case["store"] == "memory" and o["seg_first"]:
             done = {}
+            path_fp = {}
         p = case["versions"][st["v"]]
+        if st.get("entry"):
+            p = dict(p, entry=st["entry"])
         im = o["impl"]
+        if st.get("expect") == "reject":
+            continue
         if im.get("result", ("exc",))[0] != "ok":
             break
         nodes = gen.kept_nodes(p)
-        fps = dict((path, gen.node_fp(p, n, (), case.get("entry_args", "()"))) for path, n in nodes.items())
+        fps = dict((path, gen.node_fp(p, n, (), case.get("entry_args", "()"), path_fp)) for path, n in nodes.items())
         sigs = sig_map(o)
         log = im["log"]
         if st.get("style", "eval") == "keep":
@@ -295,6 +307,7 @@ def oracle_memo(case, obs, rep, upto=None, classify=None):
         for path in nodes:
             if path in sigs:
                 done[fps[path]] = sigs[path]
+                path_fp[path] = fps[path]
         if any(f in log for f in [p["fns"][n["fn"]]["name"] for n in nodes.values() if n["fn"]]):
             rep.count("steps_with_recomputation")
         else:
